@@ -41,6 +41,15 @@ pub struct Exec {
     pub untracked: bool,
     pub pushes: Vec<u32>,
     pub made: Vec<(u32, u32, [u16; 4], u32)>,
+    /// reads and creations in program order: (clock, item)
+    pub items: Vec<(u64, Item)>,
+}
+
+#[derive(Clone, Debug)]
+pub enum Item {
+    Read(ReadK, u16),
+    Made(u32, u32, [u16; 4]),
+    Interned(u8, u16, u32, u32),
 }
 
 /// Reconstructs executions (with their own direct reads) from the log.
@@ -74,6 +83,7 @@ pub fn executions(log: &[Stamped]) -> Vec<Exec> {
                     untracked: false,
                     pushes: vec![],
                     made: vec![],
+                    items: vec![],
                 });
                 stacks.entry(*th).or_default().push(out.len() - 1);
             }
@@ -83,6 +93,7 @@ pub fn executions(log: &[Stamped]) -> Vec<Exec> {
                         out[i].untracked = true;
                     }
                     out[i].reads.push((*k, *v));
+                    out[i].items.push((*c, Item::Read(*k, *v)));
                 }
             }
             Rec::Pushed(x) => {
@@ -93,6 +104,12 @@ pub fn executions(log: &[Stamped]) -> Vec<Exec> {
             Rec::Made(idx, g, f, _m, pos) => {
                 if let Some(&i) = stacks.get(th).and_then(|s| s.last()) {
                     out[i].made.push((*idx, *g, *f, *pos));
+                    out[i].items.push((*c, Item::Made(*idx, *g, *f)));
+                }
+            }
+            Rec::Interned(t, v, idx, g) => {
+                if let Some(&i) = stacks.get(th).and_then(|s| s.last()) {
+                    out[i].items.push((*c, Item::Interned(*t, *v, *idx, *g)));
                 }
             }
             Rec::Exit(a, v) => {
